@@ -16,7 +16,7 @@ From SCC Require Import Base.Sexp Lang.AxSyn Lang.FunSyn Lang.CoreSyn Sem.AxSem 
      Proof.Fun2CoreRel Proof.Fun2CoreProg Proof.FocusRun Proof.FocusFrag Proof.UqAeq Proof.UqCompose Proof.ShrinkSem Proof.ShrinkSimClosed
      Proof.X86SimAddr Proof.X86SimProg Proof.X86SimProgC Proof.X86HSimTop Proof.X86HSimCor Proof.X86HSimExample Proof.Fun2CoreExamples
      Proof.ComposeFull.
-From SCC Require Import Sem.LabelGuard Sem.WfGuard Proof.LinBasics Proof.LinearizeProof Proof.LabelGen Proof.SimFrag Proof.X86HAnn Proof.X86HAnnLin Proof.X86WfAll.
+From SCC Require Import Sem.LabelGuard Sem.WfGuard Proof.LinBasics Proof.LinearizeProof Proof.LabelGen Proof.SimFrag Proof.X86HAnn Proof.X86HAnnLin Proof.X86WfAll Proof.AxHeapExample.
 From SCC Require Proof.AxHeapTyping.
 Import ListNotations.
 Open Scope Z_scope.
